@@ -44,8 +44,12 @@ def check(ctx):
     x = f.params[0]
     rets = [s for s in walk_own(f.node) if isinstance(s, ast.Return)]
     ctx.need(len(rets) >= 1, 'fp16_to_float: no return')
+    gfp = cfg_of(f)
     for r in rets:
-        ok, inner = reinterpret(r.value)
+        rv_ = r.value
+        if isinstance(rv_, ast.Name) and gfp.node_of(r) is not None:      # returned through a local
+            rv_ = gfp.expand_locals(gfp.node_of(r), rv_, pure_only=False, keep=(x, 's', 'e', 'f'))
+        ok, inner = reinterpret(rv_)
         ctx.inst('R1', f, 'return-is-float:L', ok, 'return at line %d yields %s - must be struct.unpack(f, struct.pack(I, bits))[0], not the integer bit pattern'
                  % (r.lineno, norm(r.value) if r.value is not None else None), line=r.lineno)
     sc = Scope.of(f)
@@ -172,7 +176,10 @@ def check(ctx):
     # the word assembled on the normal path: the argument of the final reinterpretation, looked through one local and int()
     last = [r for r in f.node.body if isinstance(r, ast.Return)]
     ctx.need(len(last) == 1, 'fp16_to_float: final return not found')
-    okf, word = reinterpret(last[0].value)
+    lv_ = last[0].value
+    if isinstance(lv_, ast.Name) and gfp.node_of(last[0]) is not None:
+        lv_ = gfp.expand_locals(gfp.node_of(last[0]), lv_, pure_only=False, keep=(x, 's', 'e', 'f'))
+    okf, word = reinterpret(lv_)
     ctx.need(okf, 'fp16_to_float: final return does not reinterpret an integer word')
     if isinstance(word, ast.Name):
         res = [s for s in f.node.body if isinstance(s, ast.Assign) and norm(s.targets[0]) == word.id]
@@ -196,7 +203,10 @@ def check(ctx):
     oki = 1 <= len(infs) <= 2
     general = 0
     for r in infs:
-        _, inner = reinterpret(r.value)
+        rv_ = r.value
+        if isinstance(rv_, ast.Name) and gfp.node_of(r) is not None:
+            rv_ = gfp.expand_locals(gfp.node_of(r), rv_, pure_only=False, keep=(x, 's', 'e', 'f'))
+        _, inner = reinterpret(rv_)
         if inner is None:
             oki = False
             continue
@@ -303,8 +313,12 @@ def check(ctx):
         step_ok = isinstance(it, ast.Call) and norm(it.func) == 'range' and len(it.args) == 3 and fold_in(inc, it.args[0]) == 0 and norm(it.args[1]) == 'len(data)' and fold_in(inc, it.args[2]) == 5
         ctx.inst('R6', inc, 'range-count', bool(step_ok), 'one iteration per 5-byte record, from offset 0 to the end of the payload')
         body = [norm(s_) for s_ in lp[0].body] if lp else []
-        ctx.inst('R6', inc, 'range-advance', lv is not None and body == ["anchor_id, distance = struct.unpack_from('<Bf', data, %s)" % lv, 'decoded_data[anchor_id] = distance'] and
-                 lv not in ('anchor_id', 'distance', 'data', 'decoded_data'), 'record -> (anchor id, distance), stored by id; body %s' % body)
+        # the dictionary that collects the records is decoded_data itself or a local that becomes decoded_data
+        dn_ = body[1].split('[', 1)[0] if len(body) == 2 and '[' in body[1] else None
+        flows = dn_ == 'decoded_data' or (dn_ is not None and dn_.isidentifier() and
+                                          any(isinstance(s_, ast.Assign) and norm(s_.targets[0]) == 'decoded_data' and norm(s_.value) == dn_ for s_ in walk_own(inc.node)))
+        ctx.inst('R6', inc, 'range-advance', lv is not None and flows and body == ["anchor_id, distance = struct.unpack_from('<Bf', data, %s)" % lv, '%s[anchor_id] = distance' % dn_] and
+                 lv not in ('anchor_id', 'distance', 'data', 'decoded_data', dn_), 'record -> (anchor id, distance), stored by id; body %s' % body)
         fresh_dict_rule(ctx, inc, g)
         up = None
     else:
